@@ -437,11 +437,44 @@ pub fn run_pipeline_part(check: &str, tier: Tier, seed: u64, runs: u64) -> (batc
     (agg, wall, violations, known_hits, exit)
 }
 
+/// Fold the aggregate of a second batch (another case family of the same check) into the first.
+pub fn merge_aggregates(agg: &mut batch::Aggregate, other: batch::Aggregate) {
+    for (k, v) in other.counters.iter() {
+        *agg.counters.entry(k).or_insert(0) += v;
+    }
+    for (k, v) in other.groups.iter() {
+        *agg.groups.entry(k).or_insert(0) += v;
+    }
+    agg.evaluations += other.evaluations;
+    agg.completed += other.completed;
+    agg.decisions += other.decisions;
+    agg.steps += other.steps;
+    agg.context_switches += other.context_switches;
+    agg.preemptions += other.preemptions;
+    agg.nontrivial += other.nontrivial;
+    agg.fair_phase_entered += other.fair_phase_entered;
+    agg.max_fair_decisions = agg.max_fair_decisions.max(other.max_fair_decisions);
+    agg.behaviours_nontrivial.extend(other.behaviours_nontrivial.iter());
+    agg.behaviours_all.extend(other.behaviours_all.iter());
+    agg.trace_hashes.extend(other.trace_hashes.iter());
+    agg.samples.extend(other.samples.into_iter().take(1));
+}
+
 /// Run a pipeline check and write its evidence. Returns the process exit code.
 pub fn run_pipeline_check(check: &str, tier: Tier, seed: u64) -> i32 {
     let spec = check_spec(check);
     let runs = runs_for(&spec, tier);
-    let (agg, wall, violations, known_hits, exit) = run_pipeline_part(check, tier, seed, runs);
+    let (mut agg, mut wall, mut violations, mut known_hits, mut exit) = run_pipeline_part(check, tier, seed, runs);
+    if check == "C10" {
+        // C10 (b): concurrent cache-filling readers vs an in-order committer on the production views
+        let comp_runs = std::env::var("VERIF_RUNS").ok().and_then(|s| s.parse().ok()).unwrap_or(if tier == Tier::Quick { 150_000u64 } else { 6_000_000 });
+        let (agg2, wall2, v2, k2, e2) = crate::statecomp::run_batch(tier, seed, comp_runs);
+        merge_aggregates(&mut agg, agg2);
+        wall += wall2;
+        violations += v2;
+        known_hits += k2;
+        exit = exit.max(e2);
+    }
     let meta = EvidenceMeta {
         property: check,
         tier: tier.name(),
@@ -480,6 +513,9 @@ pub fn run_pipeline_check(check: &str, tier: Tier, seed: u64) -> i32 {
 pub fn replay(path: &Path) -> i32 {
     crate::hook::ensure_installed();
     let file = ReplayFile::read(path);
+    if !file.extra["state_readers"].is_null() {
+        return crate::statecomp::replay(&file, path);
+    }
     if !PIPELINE_CHECKS.contains(&file.check.as_str()) && (!file.extra["component"].is_null() || !file.extra["miri"].is_null()) {
         return crate::components::replay(&file, path);
     }
